@@ -150,7 +150,9 @@ impl Matrix {
                 let s = l.get_row_as_vector(j).dot(l.get_row_as_vector(i));
 
                 if i == j {
-                    l[[i, j]] = (self[[i, i]] - s).sqrt();
+                    let d = self[[i, i]] - s;
+                    assert!(d > 0., "matrix not positive definite");
+                    l[[i, j]] = d.sqrt();
                 } else {
                     l[[i, j]] = (self[[i, j]] - s) / l[[j, j]];
                 }
